@@ -10,7 +10,7 @@
 //     have a frame inside the library (C19).  Built with -race the same scenarios are the
 //     failing-input search of C20.
 //
-// usage: blackbox -scenario prio2|simple2|prio1|simple1|join|limit|dynamic|all -tier T -out DIR
+// usage: blackbox -scenario prio2|simple2|prio1|simple1|join|limit|faulty|dynamic|all -tier T -out DIR
 package main
 
 import (
@@ -186,6 +186,10 @@ func main() {
 		if all || want["limit"] {
 			b.cur = "limit"
 			b.scenarioLimit()
+		}
+		if all || want["faulty"] {
+			b.cur = "faulty"
+			b.scenarioFaulty()
 		}
 		if all || want["dynamic"] {
 			b.cur = "dynamic"
